@@ -97,6 +97,45 @@ enum Dec {
     Decode(String),
     Io,
 }
+/// A reader that hands out its bytes in short reads (`chunk` bytes at a time): `Read` allows it,
+/// and the decoder must not take a short read for the end of input.
+struct Dribble<'a> {
+    data: &'a [u8],
+    chunk: usize,
+}
+impl std::io::Read for Dribble<'_> {
+    fn read(&mut self, buf: &mut [u8]) -> std::io::Result<usize> {
+        let n = self.chunk.min(buf.len()).min(self.data.len());
+        buf[..n].copy_from_slice(&self.data[..n]);
+        self.data = &self.data[n..];
+        Ok(n)
+    }
+}
+fn decode_dribble(bytes: &[u8], trap: usize, chunk: usize) -> Result<Dec, String> {
+    catch_unwind(AssertUnwindSafe(|| {
+        let mut d = YamlDecoder::read(Dribble { data: bytes, chunk });
+        d.encoding_trap(trap_of(trap));
+        let r = d.decode();
+        match r {
+            Ok(docs) => Dec::Docs(docs.iter().map(canon_yaml).collect()),
+            Err(e) => {
+                use std::error::Error;
+                let dbg = format!("{e:?}");
+                if dbg.starts_with("Scan(") {
+                    match e.source().and_then(|s| s.downcast_ref::<saphyr::ScanError>()) {
+                        Some(se) => Dec::Scan(Er::of(se)),
+                        None => Dec::Io,
+                    }
+                } else if dbg.starts_with("Decode(") {
+                    Dec::Decode(e.to_string())
+                } else {
+                    Dec::Io
+                }
+            }
+        }
+    }))
+    .map_err(panic_msg)
+}
 fn decode(bytes: &[u8], trap: usize) -> Result<Dec, String> {
     catch_unwind(AssertUnwindSafe(|| {
         let mut d = YamlDecoder::read(bytes);
@@ -153,6 +192,15 @@ fn eval_bytes(bytes: &[u8], trap: usize, text: Option<&str>, what: &str, acc: &m
         }
         Ok(g) => g,
     };
+    // the same bytes through readers that return short reads must give the same result
+    if bytes.len() > 1 && (what == "texts" || what == "long" || bytes.len() <= 4) {
+        for chunk in [1usize, 3] {
+            let short = decode_dribble(bytes, trap, chunk);
+            if short.as_ref().ok() != Some(&got) {
+                acc.violation(Violation { key: format!("short-reads-change-result scope={what} trap={} chunk={chunk}", TRAPS[trap]), expected: format!("{got:?}"), observed: format!("{short:?}"), case: bytes_case(bytes, trap, text), size: bytes.len() });
+            }
+        }
+    }
     let model = model_decode(bytes);
     match (&model, trap) {
         (Ok(t), _) => {
